@@ -41,9 +41,15 @@ type zzTreePat struct {
 }
 
 // zzDrawPattern draws one pattern value as ParsePattern would produce it.
-func zzDrawPattern(maxHost int) zzTreePat {
+// rich: three schemes and a symbolic port; otherwise two schemes and a port
+// from {absent, 81, wildcard}.
+func zzDrawPattern(maxHost int, rich bool) zzTreePat {
 	var tp zzTreePat
-	tp.p.Scheme = zzC01Schemes[zzChoose(len(zzC01Schemes))]
+	ns := 2
+	if rich {
+		ns = 3
+	}
+	tp.p.Scheme = zzC01Schemes[zzChoose(ns)]
 	v := zzString(maxHost + 2)
 	if zzBool() {
 		zzAssume(len(v) >= 3 && v[0] == '*' && v[1] == '.')
@@ -63,9 +69,12 @@ func zzDrawPattern(maxHost int) zzTreePat {
 	case 1:
 		tp.p.Port = wildcardPort
 	default:
-		port := zzInt()
-		zzAssume(1 <= port && port <= 65535)
-		tp.p.Port = port
+		tp.p.Port = 81
+		if rich {
+			port := zzInt()
+			zzAssume(1 <= port && port <= 65535)
+			tp.p.Port = port
+		}
 	}
 	return tp
 }
@@ -86,26 +95,51 @@ func zzTreeDenotes(tp *zzTreePat, scheme, host string, port int) bool {
 	return len(host) > n && host[len(host)-n:] == tp.dotb
 }
 
-func zzH_C01_tree() {
-	maxPat, maxHost, maxK := 3, 5, 3
-	if zzTier() >= 1 {
-		maxPat, maxHost = 4, 6
+func zzH_C01_tree1() { zzC01Tree(1) }
+func zzH_C01_tree2() { zzC01Tree(2) }
+func zzH_C01_tree3() { zzC01Tree(3) }
+
+// zzC01Tree: k patterns. Bounds shrink as k grows (the product of the
+// patterns' shapes is what costs): k=1,2 rich (3 schemes, symbolic ports);
+// k=3 two schemes, ports from {absent, 81, *}.
+func zzC01Tree(k int) {
+	thorough := zzTier() >= 1
+	maxPat, maxHost, rich := 4, 6, true
+	switch k {
+	case 2:
+		maxPat, maxHost = 3, 5
+		if thorough {
+			maxPat, maxHost = 4, 6
+		}
+	case 3:
+		maxPat, maxHost, rich = 3, 4, false
+		if thorough {
+			maxPat, maxHost = 3, 5
+		}
 	}
-	k := zzChoose(maxK) + 1
 	pats := make([]zzTreePat, k)
 	var t Tree
 	for i := range pats {
-		pats[i] = zzDrawPattern(maxPat)
+		pats[i] = zzDrawPattern(maxPat, rich)
 		t.Insert(&pats[i].p)
 	}
 	var o Origin
-	o.Scheme = zzC01Schemes[zzChoose(len(zzC01Schemes))]
+	ns := 2
+	if rich {
+		ns = 3
+	}
+	o.Scheme = zzC01Schemes[zzChoose(ns)]
 	o.Host.Value = zzString(maxHost)
 	zzAssume(zzValidHost(o.Host.Value))
 	if zzBool() {
-		port := zzInt()
-		zzAssume(1 <= port && port <= 65535)
-		o.Port = port
+		o.Port = 81
+		if rich {
+			port := zzInt()
+			zzAssume(1 <= port && port <= 65535)
+			o.Port = port
+		} else if zzBool() {
+			o.Port = 82
+		}
 	}
 	got := t.Contains(&o)
 	want := false
